@@ -81,6 +81,10 @@ def may_be_none(ck, field):
     return False
 
 
+def run_core(ck, agg):
+    return _core(ck, agg)
+
+
 def run(ck):
     ck.explanation = (
         "Static analysis of FrameQueueFrag.enqueue by path-sensitive abstract interpretation with a fully symbolic reassembly cache and a "
@@ -93,6 +97,16 @@ def run(ck):
         "bytes are cache + fragment in that order (R06.7). These are necessary conditions; enumeration of delivery histories is another family.")
     ck.not_decided = ["exhaustive / randomised delivery patterns (enumeration of histories): the rules are necessary, not sufficient"]
     agg = Agg(ck)
+    nsc, nre = _core(ck, agg)
+    # sender side of R06.7: numbering, type in the last fragment, type restored on every exit (shared with C11/R11.6)
+    from . import c11
+    c11.fragment_loop(ck, agg, rule="R06.7")
+    agg.flush()
+    ck.floor("R06", "fragment kinds x cache states", nsc, 5)
+    ck.floor("R06.4", "re-delivery scenarios after completion", nre, 2)
+
+
+def _core(ck, agg):
     K = consts(ck)
     S = net.structs(ck.prog)
     cls = S["FrameQueueFrag"]
@@ -155,6 +169,19 @@ def run(ck):
                 if kind == "LAST" and sp and base_enq and cache_from == "int":
                     # the message is complete (handed to the base queue) - accepted or refused (queue full / duplicate)
                     completed_states.append((out.state, q, frame, bool(dl)))
+                if not sp and not dl and kind in ("MORE", "LAST") and cache_from == "int":
+                    # R06.8 completeness: a fragment that belongs to the cached message and is next in sequence must not be dropped
+                    ident_ok = all(equal_on_path(relates(out, "cache.header." + fld, "frame.header." + fld)) for fld in ("from_node", "frame_id"))
+                    seq_rel = relates(out, "cache.header.reserved", "frame.header.reserved")
+                    in_seq = kind == "LAST" or any(d is not None and d.terms.get("cache.header.reserved") == -d.terms.get("frame.header.reserved") and
+                                                   ((op == "NotEq" and not pol) or (op == "Eq" and pol)) and (d.c * d.terms.get("cache.header.reserved", 0) == -1) for op, pol, d, ev in seq_rel)
+                    if ident_ok and in_seq:
+                        tests = sorted({(ast.unparse(e_.node), e_.data[0]) for e_ in out.trace if e_.kind == "cond" and e_.func is f})
+                        agg.add("R06.8", f, "a %s fragment that matches the cached message (origin, id%s) is never dropped" % (kind, "" if kind == "LAST" else ", next counter"), False,
+                                "%s: origin and frame id match%s, yet the fragment is dropped (returns %r) - the message can never complete. Decisions on the path: %s" % (
+                                    label, "" if kind == "LAST" else " and the counter is the next one", out.value, tests))
+                    elif ident_ok is False:
+                        pass
                 if not sp and not dl:
                     agg.add("R06.5", f, "a dropped fragment is reported as not stored", value_matches(out.value, False), "%s: nothing spliced or delivered but returns %r" % (label, out.value))
                     continue
@@ -236,9 +263,4 @@ def run(ck):
             agg.add("R06.4", f, "after a message is completed%s, further %s fragments are dropped until a new FIRST arrives" % ("" if accepted else " but refused by the queue (full / duplicate)", kind), not bad,
                     "a %s fragment received after the message was delivered is spliced onto the already delivered bytes%s: the cache is not invalidated on completion, "
                     "so a repeated LAST fragment delivers the message a second time with its tail doubled" % (kind, " and delivered again" if kind == "LAST" else ""))
-    # sender side of R06.7: numbering, type in the last fragment, type restored on every exit (shared with C11/R11.6)
-    from . import c11
-    c11.fragment_loop(ck, agg, rule="R06.7")
-    agg.flush()
-    ck.floor("R06", "fragment kinds x cache states", nsc, 5)
-    ck.floor("R06.4", "re-delivery scenarios after completion", nre, 2)
+    return nsc, nre
